@@ -50,3 +50,224 @@ def guard_contract():
                  requires=requires, ensures=ensures, region=region_guard, raises=lambda S, a, e: z3.BoolVal(False))
     c.region_name = "guard on the loaded chain"
     return c
+
+
+# ----------------------------------------------------------------- match.main: snapping, code length, reported row (C05)
+def region_snap(fnode):
+    """the statements of the loop body from `if np.sum(fish<=0)>0:` to the end of the body"""
+    for s in ast.walk(fnode):
+        if isinstance(s, ast.For) and any(isinstance(n, ast.Call) and getattr(n.func, "attr", None) == "convert_params" for n in ast.walk(s)):
+            for k, b in enumerate(s.body):
+                if isinstance(b, ast.If) and "fish" in ast.dump(b.test) and "LtE" in ast.dump(b.test):
+                    return s.body[k:]
+    return None
+
+
+def snap_contract(variant):
+    """Given the converted parameters p and the diagonal of the transformed Fisher matrix `fish` of variant i (both of length k0 >= 1) and
+    the likelihood as an uninterpreted function NLL(function, parameter vector):
+
+      finite    (the likelihood is finite at every parameter vector)
+         some fish_j <= 0                      ->  code length +inf
+         otherwise, with Nsteps_j = |p_j| / sqrt(12 / fish_j) and S = {j : Nsteps_j < 1}:
+            reported parameters  = p with the entries in S set to zero, zero padded to max_param
+            reported likelihood  = the unique function's if S is empty, else NLL(the variant's own function, snapped parameters)
+            code length          = -(k/2) ln 3 + sum over j not in S of (1/2 ln fish_j + ln|p_j|),  k = k0 - |S|   (0 stays as initialised when k = 0)
+      infinite  (the likelihood is +inf wherever it is re-evaluated: snapping is impossible)
+            reported parameters  = the ORIGINAL p (nothing zeroed), zero padded;  reported likelihood = the unique function's;
+            code length          = -(k0/2) ln 3 + sum over all j of (1/2 ln fish'_j + ln|p_j|) with fish'_j = 12 / p_j^2 for j in S.
+    Rows other than i are not touched."""
+    from pyvc.engine import LoopSpec
+    from pyvc.values import (VFloat, VFn, VRef, VTuple, VBool, VLabel, HObj, H2D, Fn, Label, fresh_name, as_float, fsame, fdiv, fabs, fsqrt, flt, fle, LN)
+    from pyvc.models import PyRaise, CNT, IDX, RNK
+    NP, M, K0 = z3.Int("NP"), z3.Int("max_param"), z3.Int("nparams")
+    NLLv = z3.Function("NLL.val", Fn, M_.RealArr, z3.RealSort())
+    EQOF = z3.Function("eq_of", Label, Fn)
+    LAM = z3.Function("lambdify", Fn, Fn)
+
+    def arr(name, etype, n, ghost=None):
+        def mk(eng, st):
+            v = eng.fresh(T.arr(etype), name, st)
+            st.heap[v.addr].len = n
+            if ghost:
+                st.ghost[ghost] = st.heap[v.addr]
+            return v
+        return mk
+
+    def mk_params(eng, st):
+        return st.alloc(H2D(NP, M, lambda r, c: VFloat(0), etype=T.float))
+
+    def mk_like(eng, st):
+        return st.alloc(HObj("Likelihood", {}))
+
+    def run_sympify_contract():
+        def returns(eng, st, a):
+            f = a["fcn_i"]
+            return VTuple([f, VFn(EQOF(f.t)), VFn(z3.Const("integrated", Fn))])
+        return Contract("Likelihood.run_sympify", {"self": T.fn, "fcn_i": T.label, "tmax": (T.int, VInt(5)), "try_integration": (T.bool, VBool(False))}, returns=returns)
+
+    def opaque(eng, st, fn, args, kwargs, node):
+        # fop(p) / f1(p): likelihood.negloglike(p, eq_numpy, ...) with the eq_numpy bound in main's scope at the time of the call
+        if "eq_numpy" not in st.env:
+            raise PyRaise("NameError")
+        en = st.env["eq_numpy"]
+        o = st.heap[args[0].addr]
+        k = z3.Int("k!nll")
+        g = o.get
+        A = M_.named_array(eng, z3.Lambda([k], as_float(g(k)).val), "TH")
+        st.ghost.setdefault("nll_calls", []).append((en.t, A, o.len))
+        if variant == "finite":
+            return VFloat(NLLv(en.t, A))
+        return VFloat(0, inf=True, pos=True)
+
+    def setup(eng, st, args):
+        eng.opaque_call = opaque
+        eng._sum_terms = []
+        eng.contracts["Likelihood.run_sympify"] = run_sympify_contract()
+        eng.models["sympy.lambdify"] = lambda e, s, a, k, n: VFn(LAM(a[1].t))
+        for nm in ("x", "a0"):
+            st.env[nm] = VFn(z3.Const("sym." + nm, Fn))
+        st.env["rank"] = VInt(z3.Int("rank"))
+        st.env["tmax"] = VInt(5)
+        st.env["try_integration"] = VBool(False)
+        st.env["max_param"], st.env["nparams"], st.env["k"] = VInt(M), VInt(K0), VInt(K0)
+        st.ghost["fcn0"] = args["fcn_i"]
+        st.ghost["nll0"] = st.heap[args["negloglike_all"].addr]
+        st.ghost["cl0"] = st.heap[args["codelen"].addr]
+
+    def requires(S, a):
+        i = a["i"].t
+        k = z3.Int("k!rq")
+        p = S.seq(a["p"])
+        return [("sizes", z3.And(NP >= 1, 0 <= i, i < NP, K0 >= 1, M >= K0)),
+                ("the likelihood copied from the unique function is finite (the loop skipped NaN/inf before)", S.get(a["negloglike_all"], i).is_fin())]
+
+    def nsteps(p0, f0):
+        """the code's own formula: |p| / sqrt(12 / fish)  (Delta = inf where fish = 0, Nsteps = nan where Delta = 0)"""
+        return lambda q: fdiv(fabs(p0.get(q)), fsqrt(fdiv(VFloat(12), f0.get(q))))
+
+    def loop_select(node):
+        # the subset search of the infinite-likelihood fallback: nothing is known about which subsets are tried; every evaluation is +inf
+        def inv(S, st):
+            i = S.eng.args0["i"].t
+            nl = S.seq(S.eng.args0["negloglike_all"])
+            out = []
+            if variant == "infinite":
+                out.append(("the likelihood entry of variant i stays +inf during the subset search", nl.get(i).is_pinf()))
+            return out + frame(S)
+        ls = LoopSpec(inv, havoc_types={"p": T.arr(T.real), "idx": T.list(T.int), "idx_": T.int, "r": T.int})
+        return ls
+
+    def frame(S):
+        st = S.st
+        i = S.eng.args0["i"].t
+        r = z3.Int("r!fr")
+        nl, cl = S.seq(S.eng.args0["negloglike_all"]), S.seq(S.eng.args0["codelen"])
+        return [("entries of other variants are untouched", z3.ForAll([r], z3.Implies(z3.And(0 <= r, r < NP, r != i), z3.And(fsame(nl.get(r), st.ghost["nll0"].get(r)),
+                                                                                                                  fsame(cl.get(r), st.ghost["cl0"].get(r))))))]
+
+    def ensures(S, a, res):
+        eng, st = S.eng, S.st
+        i = a["i"].t
+        p0, f0 = st.ghost["p0"], st.ghost["f0"]
+        cl, nl = S.seq(a["codelen"]), S.seq(a["negloglike_all"])
+        P = st.heap[a["params"].addr]
+        out = list(frame(S))
+        kq = z3.Int("k!bad")
+        bad = z3.Exists([kq], z3.And(0 <= kq, kq < K0, fle(f0.get(kq), VFloat(0))))
+        ci = cl.get(i)
+        out.append(("a non-positive diagonal entry of the transformed Fisher matrix gives an infinite code length", z3.Implies(bad, ci.is_pinf())))
+        N = nsteps(p0, f0)
+        snap = lambda q: flt(N(q), VFloat(1))
+        keep = lambda q: fle(VFloat(1), N(q))
+        smask = M_.mask_array(eng, st, snap)
+        kmask = M_.mask_array(eng, st, keep)
+        M_.filter_axioms(eng, smask, K0)
+        M_.filter_axioms(eng, kmask, K0)
+        nsnap = CNT(smask, K0)
+        c = z3.Int(fresh_name("c!sk"))
+        cin = z3.And(0 <= c, c < M)
+        # all fish entries positive and finite, parameters non-zero where kept: the regular case of the property
+        allpos = z3.ForAll([kq], z3.Implies(z3.And(0 <= kq, kq < K0), z3.And(f0.get(kq).is_fin(), f0.get(kq).val > 0)))
+        good = z3.And(z3.Not(bad), allpos)
+        absr = lambda t: z3.If(t < 0, -t, t)
+        j = z3.Int("j!spec")
+        if variant == "finite":
+            want_p = lambda q: z3.If(z3.And(q < K0, z3.Not(snap(q))), as_float(p0.get(q)).val, 0)
+            out.append(("reported parameters = converted parameters with every entry below one precision step set to zero, zero padded",
+                        z3.Implies(z3.And(good, cin), z3.And(as_float(P.get(i, c)).is_fin(), as_float(P.get(i, c)).val == want_p(c)))))
+            q = z3.Int("q!e")
+            PA = M_.named_array(eng, z3.Lambda([q], want_p(q)), "POUT")
+            lam0 = LAM(EQOF(st.ghost["fcn0"].t))
+            for (en, A, n) in st.ghost.get("nll_calls", []):
+                qq = z3.Int(fresh_name("q!ext"))
+                eng.axioms.append(z3.Implies(z3.And(en == lam0, z3.ForAll([qq], z3.Implies(z3.And(0 <= qq, qq < K0), z3.Select(A, qq) == z3.Select(PA, qq)))),
+                                             NLLv(en, A) == NLLv(lam0, PA)))
+            out.append(("reported likelihood: the unique function's when nothing is snapped, else the likelihood of the variant's OWN function at the reported parameters",
+                        z3.Implies(good, z3.And(nl.get(i).is_fin(), nl.get(i).val == z3.If(nsnap > 0, NLLv(lam0, PA), st.ghost["nll0"].get(i).val)))))
+            fj = lambda jj: f0.get(IDX(kmask, K0, jj))
+            tj = lambda jj: p0.get(IDX(kmask, K0, jj))
+            spec_arr = M_.named_array(eng, z3.Lambda([j], LN(fj(j).val) / 2 + LN(absr(as_float(tj(j)).val))), "SPEC")
+            m = CNT(kmask, K0)
+            M_.complement_lemma(eng, smask, kmask, K0)
+            for (arr_, nn) in getattr(eng, "_sum_terms", []):
+                qq = z3.Int(fresh_name("q!ext"))
+                eng.axioms.append(z3.Implies(z3.ForAll([qq], z3.Implies(z3.And(0 <= qq, qq < m), z3.Select(arr_, qq) == z3.Select(spec_arr, qq))),
+                                             M_.SUMR(arr_, m) == M_.SUMR(spec_arr, m)))
+            kk = K0 - nsnap
+            nonzero = z3.ForAll([kq], z3.Implies(z3.And(0 <= kq, kq < K0, keep(kq)), as_float(p0.get(kq)).val != 0))
+            out.append(("code length = -(k/2) ln 3 + sum over the kept parameters of (1/2 ln fish_j + ln|p_j|), k the number kept; with nothing kept it stays at its initial value",
+                        z3.Implies(z3.And(good, nonzero), z3.If(kk == 0, fsame(ci, st.ghost["cl0"].get(i)),
+                                                                z3.And(ci.is_fin(), ci.val == -z3.ToReal(kk) / 2 * LN(z3.RealVal(3)) + M_.SUMR(spec_arr, m))))))
+        else:
+            some = nsnap > 0
+            out.append(("when snapping makes the likelihood infinite the ORIGINAL converted parameters are reported (nothing zeroed), zero padded",
+                        z3.Implies(z3.And(good, some, cin), z3.And(as_float(P.get(i, c)).is_fin(), as_float(P.get(i, c)).val == z3.If(c < K0, as_float(p0.get(c)).val, 0)))))
+            out.append(("... and the unique function's likelihood is kept", z3.Implies(z3.And(good, some), fsame(nl.get(i), st.ghost["nll0"].get(i)))))
+        return out
+
+    def nsteps_lemma(S, st, node=None):
+        """after the last store into Nsteps: on regular input (every fish entry positive and finite) Nsteps is |p| / sqrt(12 / fish), entry by entry
+        (Skolem index, then generalised) -- the masks fish != 0 and Delta != 0 are then all true"""
+        if not (isinstance(node, ast.Assign) and isinstance(node.value, ast.Attribute) and node.value.attr == "nan"):
+            return
+        p0, f0 = st.ghost["p0"], st.ghost["f0"]
+        kq = z3.Int("k!good")
+        allpos = z3.ForAll([kq], z3.Implies(z3.And(0 <= kq, kq < K0), z3.And(f0.get(kq).is_fin(), f0.get(kq).val > 0)))
+        N = nsteps(p0, f0)
+        ns = S.seq(S.var("Nsteps"))
+        q0 = z3.Int(fresh_name("q!sk"))
+        S.eng.oblige(st, "lemma: on regular input Nsteps[q] = |p[q]| / sqrt(12 / fish[q]) for every q (the two masks are all true)",
+                     z3.Implies(z3.And(allpos, 0 <= q0, q0 < K0), z3.And(ns.len == K0, fsame(as_float(ns.get(q0)), N(q0)))), "lemma", node)
+        q = z3.Int("q!ns")
+        g = ns.get
+        nv = S.eng.fresh(T.arr(T.float), "Nsteps!lemma", st)
+        new = st.heap[nv.addr]
+        new.len = ns.len
+        # the same array object, described by the closed form on regular input and by the code's own expression otherwise
+        st.assume(z3.Implies(allpos, z3.And(ns.len == K0, z3.ForAll([q], z3.Implies(z3.And(0 <= q, q < K0), fsame(as_float(new.get(q)), N(q)))))))
+        st.assume(z3.Implies(z3.Not(allpos), z3.ForAll([q], fsame(as_float(new.get(q)), as_float(g(q))))))
+        st.heap[S.var("Nsteps").addr] = new
+
+    def mk_p(eng, st):
+        v = eng.fresh(T.arr(T.real), "p", st)
+        st.heap[v.addr].len = K0
+        st.ghost["p0"] = st.heap[v.addr]
+        return v
+
+    def mk_fish(eng, st):
+        v = eng.fresh(T.arr(T.float), "fish", st)
+        st.heap[v.addr].len = K0
+        st.ghost["f0"] = st.heap[v.addr]
+        return v
+
+    c = Contract("main", {"p": mk_p, "fish": mk_fish, "i": T.int, "codelen": arr("codelen", T.float, NP), "negloglike_all": arr("negloglike_all", T.float, NP),
+                          "params": mk_params, "fcn_i": T.label, "likelihood": mk_like, "fop": T.fn, "f1": T.fn},
+                 requires=requires, ensures=ensures, setup=setup, region=region_snap,
+                 raises=lambda S, a, e: z3.BoolVal(False), hooks={"Nsteps[]": nsteps_lemma})
+    c.region_name = "snapping, code length and reported row (%s likelihood)" % variant
+    c.loop_select = loop_select
+    return c
+
+
+M_ = M
